@@ -732,8 +732,10 @@ def register_shape(ctx, rule="C08.add-mode"):
                             isinstance(b, ast.Subscript) and isinstance(b.value, ast.Attribute) and b.value.attr == "shape":
                         db = derives(f.node, b, ids[0] if ids else None)
                         bad = db.has_call("self.get_modes", "get_modes") or any(a_.endswith(".active") for a_ in db.attrs)
+                        # ... nor the number of modes the method was ASKED about (the offset is a property of the register)
+                        bad = bad or bool(set(mp) & db.params)
                         ctx.ob(rule, f.site, not bad, "" if not bad else f"`{ast.unparse(x)[:50]}`: the x/p block offset is the number of "
-                               "LIVE modes; after a deletion the x quadrature of a mode is paired with the p quadrature of another",
+                               "LIVE (or requested) modes, not of allocated slots; the x quadrature of a mode is paired with the p quadrature of another",
                                role="xp-offset-allocated", line=x.lineno)
 
 
